@@ -23,10 +23,10 @@ ASSUMPTIONS = ['columns are exactly coercible to the required dtypes (no NaN in 
 REFUSE = ['not_a_frame', 'empty', 'missing_column', 'duplicates', 'type0_coincident', 'vv_coincident']
 REQUIRED = ['refuse:' + r for r in REFUSE] + ['accept', 'legal_coincidence_other_ceilo', 'duplicate_only_after_coercion',
             'duplicate_only_after_dropping_extra_column', 'several_vv_rows_one_measurement',
-            'several_type0_rows_one_measurement', 'dtype_variant', 'extra_columns', 'valid_unchanged', 'index_named_like_column']
+            'several_type0_rows_one_measurement', 'dtype_variant', 'extra_columns', 'valid_unchanged', 'index_named_like_column', 'signed_zero', 'edited_after_check']
 SIZES = {'quick': 3000, 'thorough': 60000}
 DEFECTS = ['none', 'none', 'drop_col', 'dup_row', 'dup_after_coercion', 'dup_after_extra_drop', 't0_same', 't0_other',
-           'vv_same', 'vv_other', 'two_vv', 'two_t0', 'dtypes', 'extra_cols', 'perm_cols', 'odd_index', 'index_named_like_column', 'empty',
+           'vv_same', 'vv_other', 'two_vv', 'two_t0', 'dtypes', 'extra_cols', 'perm_cols', 'odd_index', 'index_named_like_column', 'signed_zero', 'empty',
            'not_a_frame']
 
 
@@ -166,6 +166,21 @@ def inject(rng, df, defect, tags):
         out = df.copy()
         out.index = pd.Index(rng.permutation(len(df)) * 3 - 5) if rng.uniform() < 0.5 else pd.Index(['r%d' % (j // 2) for j in range(len(df))])
         return out
+    if defect == 'signed_zero':
+        # 0.0 and -0.0 are the same time / height: coincidences and duplicates across the two spellings
+        tags.add('signed_zero')
+        k = int(rng.integers(5))
+        df = addrow('zc', 0.0, 100.0, 1)
+        if k == 0:
+            return addrow('zc', -0.0, np.nan, 0)          # type 0 next to a hit        -> refuse
+        if k == 1:
+            return addrow('zc', -0.0, 50.0, -1)           # VV next to a hit            -> refuse
+        if k == 2:
+            return addrow('zc', -0.0, 100.0, 1)           # duplicated row              -> refuse
+        if k == 3:
+            df = addrow('zc', 5.0, 0.0, 2)
+            return addrow('zc', 5.0, -0.0, 2)             # duplicated row (height)     -> refuse
+        return addrow('zd', -0.0, np.nan, 0)              # other instrument            -> legal
     if defect == 'index_named_like_column':
         tags.add('index_named_like_column')
         return df.set_index(str(rng.choice(['dt', 'ceilo'])), drop=False) if rng.uniform() < 0.6 else df.set_index(['ceilo', 'dt'], drop=False)
@@ -271,6 +286,45 @@ def check(desc):
                     oracles.V(viol, 'C15', 'checking an already-checked frame changes it', **wit)
                 if defects == ['none'] and snapshot(res)['vals'] == snapshot(obj)['vals']:
                     tags.add('valid_unchanged')
+                # history: the vetted frame is edited in place (same shape) into an illegal one and screened again
+                if len(res) >= 2:
+                    ed = res
+                    which_edit = int(rng.integers(3))
+                    def setcell(r, c, v):
+                        ed.iloc[r, ed.columns.get_loc(c)] = v
+                    c0, t0_ = str(ed['ceilo'].iloc[0]), float(ed['dt'].iloc[0])
+                    setcell(1, 'ceilo', c0)
+                    setcell(1, 'dt', t0_)
+                    if which_edit == 0:                                   # duplicated row
+                        setcell(1, 'height', ed['height'].iloc[0])
+                        setcell(1, 'type', int(ed['type'].iloc[0]))
+                    elif which_edit == 1:                                 # type 0 next to a hit
+                        setcell(0, 'type', 1)
+                        setcell(0, 'height', 10.0)
+                        setcell(1, 'type', 0)
+                        setcell(1, 'height', np.nan)
+                    else:                                                 # VV next to a hit
+                        setcell(0, 'type', 2)
+                        setcell(0, 'height', 10.0)
+                        setcell(1, 'type', -1)
+                        setcell(1, 'height', 20.0)
+                    try:
+                        v2, i2 = reference(ed)
+                    except (TypeError, ValueError):
+                        v2 = None
+                    if v2 == 'refuse':
+                        tags.add('edited_after_check')
+                        ev += 1
+                        try:
+                            with warnings.catch_warnings():
+                                warnings.simplefilter('ignore')
+                                check_data_consistency(ed)
+                            oracles.V(viol, 'C15', 'a checked frame edited into an illegal one is accepted at the next screening',
+                                      edit=['duplicate row', 'type 0 next to a hit', 'VV next to a hit'][which_edit], reason=i2, **wit)
+                        except AmpycloudError:
+                            pass
+                        except Exception as e:      # noqa
+                            oracles.V(viol, 'C15', 'refusal signalled by another exception type', exc=type(e).__name__, **wit)
         if defects != ['none']:
             nt.append(obs.case_hash(before, defects))
         if sample is None and verdict == 'refuse' and isinstance(obj, pd.DataFrame):
